@@ -25,6 +25,7 @@
 
 enum { M_OFF, M_JITTER, M_STRAGGLER, M_SLOWTHREAD, M_HOLDBLOCK };
 static unsigned hold_count;
+static uint64_t hold_key;       /* seed % 3 unless LBZIP2_VERIF_HOLDKEY is set */
 
 static int sched_mode = M_OFF;
 static uint64_t sched_seed;
@@ -98,10 +99,11 @@ verif_yield(int site, uint64_t key)
     break;
 
   case M_HOLDBLOCK:
-    /* Hold back the work on one block (ordinal seed % 3) and nothing else, so
+    /* Hold back the work on one block (ordinal seed % 3, or LBZIP2_VERIF_HOLDKEY)
+       and nothing else, so
        that everything behind it piles up: at most the first two compute
        sections carrying that key are delayed. */
-    if (site == VS_COMPUTE_BEGIN && key == sched_seed % 3u &&
+    if (site == VS_COMPUTE_BEGIN && key == hold_key &&
         __atomic_fetch_add(&hold_count, 1u, __ATOMIC_RELAXED) < 2u)
       nap(1000u * (sched_arg ? sched_arg : 200u));
     break;
@@ -311,8 +313,12 @@ verif_init(void)
         sched_mode = M_STRAGGLER;
       else if (strcmp(mode, "slowthread") == 0)
         sched_mode = M_SLOWTHREAD;
-      else if (strcmp(mode, "holdblock") == 0)
+      else if (strcmp(mode, "holdblock") == 0) {
+        const char *k = getenv("LBZIP2_VERIF_HOLDKEY");
+
         sched_mode = M_HOLDBLOCK;
+        hold_key = k != NULL ? strtoull(k, NULL, 10) : sched_seed % 3u;
+      }
     }
   }
 
